@@ -230,6 +230,99 @@ Section C18_Abstract.
   Print Assumptions linking_message_injective.
 End C18_Abstract.
 
+(** * the sub-protocol hypotheses of [statement_complete], discharged by the C07 / C11 developments
+    (for every field / module with the laws of Alg.v resp. every [bp_ops] with [bp_laws]) *)
+From CB Require Import Crypto.Alg Crypto.Transcript Crypto.SigmaGeneric Crypto.SigmaCodec Crypto.Sigma_dlog.
+From CB Require Import Crypto.BpAlg Crypto.Ipa Crypto.RangeProof Crypto.SetProof Crypto.BpTheorems.
+From CB Require Crypto.RangeStmt.
+From CB Require Import Crypto.StatementsCompose.
+
+Theorem statement_complete_reveal : forall (K : FieldOps) (M : ModOps K) (Cd : CodecOps M) (KL : FieldLaws K) (ML : ModLaws M)
+    (H : bytes -> bytes) (sfb : bytes -> K) (g h : M) (x r : K) k ctx rho,
+  let C := Gadd M (smul M x g) (smul M r h) in
+  exists pi st,
+    prove H sfb (dlog_proto Cd) k ctx (reveal_stmt g h C x) r rho = Some (pi, st)
+    /\ verify H sfb (dlog_proto Cd) k ctx (reveal_stmt g h C x) pi = (true, st).
+Proof. intros K M Cd KL ML H sfb g h x r k ctx rho. exact (reveal_complete_c07 Cd H sfb g h x r k ctx rho). Qed.
+Print Assumptions statement_complete_reveal.
+
+Theorem statement_complete_range : forall Ops, bp_laws Ops ->
+  forall r v a b rs Gs Hs B Bt sL sR at_ st t1t t2t y yi z x w us,
+  let vs := [fst (range_proved r v a b); snd (range_proved r v a b)] in
+  length rs = 2%nat ->
+  length Gs = Nat.pow 2 (length us) -> length Gs = 128%nat -> length Hs = length Gs ->
+  length sL = length Gs -> length sR = length Gs ->
+  o_fmul Ops y yi = o_f1 Ops -> inv_ok Ops us ->
+  range_verdict Ops 64 (vzip (commit Ops B Bt) (map (fval Ops 64) vs) rs) Gs Hs B Bt
+    (range_prove Ops 64 vs rs Gs Hs B Bt sL sR at_ st t1t t2t y yi z x w us) y yi z x w us = VOk
+  /\ ((0 < r)%Z -> range_scalars_ok r v a b = true -> range_proved r v a b = range_scalars r v a b).
+Proof.
+  intros Ops L r v a b rs Gs Hs B Bt sL sR at_ st t1t t2t y yi z x w us vs H1 H2 H3 H4 H5 H6 H7 H8. split.
+  - exact (range_stmt_complete_c11 Ops L r v a b rs Gs Hs B Bt sL sR at_ st t1t t2t y yi z x w us H1 H2 H3 H4 H5 H6 H7 H8).
+  - exact (range_proved_eq_scalars r v a b).
+Qed.
+Print Assumptions statement_complete_range.
+
+Theorem statement_complete_in_set : forall Ops, bp_laws Ops -> forall (emb : N -> o_F Ops)
+    set v vr Gs Hs B Bt sL sR at_ st t1t t2t y yi z x w us,
+  mem_enc (encode v) set = true ->
+  length Gs = Nat.pow 2 (length us) -> length Gs = length (RangeStmt.pad_pow2 (enc_set Ops emb set)) -> length Hs = length Gs ->
+  length sL = length Gs -> length sR = length Gs ->
+  o_fmul Ops y yi = o_f1 Ops -> inv_ok Ops us ->
+  exists p, mem_prove Ops (enc_set Ops emb set) (emb (encode v)) vr Gs Hs B Bt sL sR at_ st t1t t2t y yi z x w us = Some p
+    /\ mem_verdict Ops (enc_set Ops emb set) (commit Ops B Bt (emb (encode v)) vr) Gs Hs B Bt p y yi z x w us = VOk.
+Proof. intros Ops L emb. exact (set_member_stmt_complete_c11 Ops L emb). Qed.
+Print Assumptions statement_complete_in_set.
+
+Theorem statement_complete_not_in_set : forall Ops, bp_laws Ops -> forall (emb : N -> o_F Ops)
+    set v vr invs Gs Hs B Bt sL sR at_ st t1t t2t y yi z x w us,
+  (forall a b, emb a = emb b -> a = b) ->
+  mem_enc (encode v) set = false ->
+  Forall2 (fun si iv => o_fmul Ops (o_fsub Ops (emb (encode v)) si) iv = o_f1 Ops) (RangeStmt.pad_pow2 (enc_set Ops emb set)) invs ->
+  length Gs = Nat.pow 2 (length us) -> length Gs = length (RangeStmt.pad_pow2 (enc_set Ops emb set)) -> length Hs = length Gs ->
+  length sL = length Gs -> length sR = length Gs ->
+  o_fmul Ops y yi = o_f1 Ops -> inv_ok Ops us ->
+  exists p, nonmem_prove Ops (enc_set Ops emb set) (emb (encode v)) vr invs Gs Hs B Bt sL sR at_ st t1t t2t y yi z x w us = Some p
+    /\ nonmem_verdict Ops (enc_set Ops emb set) (commit Ops B Bt (emb (encode v)) vr) Gs Hs B Bt p y yi z x w us = VOk.
+Proof. intros Ops L emb. exact (set_nonmember_stmt_complete_c11 Ops L emb). Qed.
+Print Assumptions statement_complete_not_in_set.
+
+(** the prover's refusals, in the vocabulary of the C11 model *)
+Theorem statement_false_set_refused : forall Ops, bp_laws Ops -> forall (emb : N -> o_F Ops)
+    set v vr invs Gs Hs B Bt sL sR at_ st t1t t2t y yi z x w us,
+  (forall a b, emb a = emb b -> a = b) ->
+  (mem_enc (encode v) set = false ->
+   mem_prove Ops (enc_set Ops emb set) (emb (encode v)) vr Gs Hs B Bt sL sR at_ st t1t t2t y yi z x w us = None)
+  /\ (mem_enc (encode v) set = true ->
+   nonmem_prove Ops (enc_set Ops emb set) (emb (encode v)) vr invs Gs Hs B Bt sL sR at_ st t1t t2t y yi z x w us = None).
+Proof.
+  intros Ops L emb set v vr invs Gs Hs B Bt sL sR at_ st t1t t2t y yi z x w us Hinj. split.
+  - exact (set_member_stmt_refused_c11 Ops L emb set v vr Gs Hs B Bt sL sR at_ st t1t t2t y yi z x w us Hinj).
+  - exact (set_nonmember_stmt_refused_c11 Ops L emb set v vr invs Gs Hs B Bt sL sR at_ st t1t t2t y yi z x w us).
+Qed.
+Print Assumptions statement_false_set_refused.
+
+(** * request anchors: the presentation's claims match the anchored request *)
+Theorem claims_match_ok_iff : forall rq pc,
+  claims_match rq pc = MOk <->
+  (In (pc_kind pc) (rq_source rq)
+   /\ (exists d, In d (rq_issuers rq) /\ did_ip d = pc_issuer pc /\ did_net d = pc_net pc)
+   /\ map to_requested (pc_stmts pc) = rq_stmts rq).
+Proof. exact claims_match_ok_iff_. Qed.
+Print Assumptions claims_match_ok_iff.
+
+Theorem issuer_match_is_entrywise_not_fieldwise :
+  (forall rq pc, issuer_allowed rq pc = true -> issuer_allowed_fieldwise rq pc = true)
+  /\ (exists rq pc, issuer_allowed_fieldwise rq pc = true /\ issuer_allowed rq pc = false
+                    /\ claims_match rq pc = MFailIssuer).
+Proof. exact issuer_allowed_fieldwise_weaker_. Qed.
+Print Assumptions issuer_match_is_entrywise_not_fieldwise.
+
+Theorem claims_list_match_ok_iff : forall rqs pcs,
+  claims_list_match rqs pcs = MOk <-> Forall2 (fun rq pc => claims_match rq pc = MOk) rqs pcs.
+Proof. exact claims_list_match_ok_iff_. Qed.
+Print Assumptions claims_list_match_ok_iff.
+
 (** * non-vacuity *)
 Local Open Scope N_scope.
 Example encoding_examples :
